@@ -26,6 +26,15 @@ ASSUMPTIONS = ["Decimal.normalize()/quantize() round to the ambient context (28 
 # Decimal methods whose result is rounded to the ambient context (decimal module documentation); exact ones
 # (as_tuple, is_*, copy_*, adjusted, compare_total, __neg__ on the unscaled int, ...) are not listed
 CONTEXT_DEPENDENT = {"normalize", "quantize", "to_integral_value", "to_integral", "to_integral_exact", "fma", "sqrt", "scaleb", "shift", "rotate", "exp", "ln", "log10", "logb", "next_minus", "next_plus", "next_toward", "remainder_near", "max", "min", "max_mag", "min_mag", "__round__"}
+# position of the `context` parameter of those methods (decimal.Decimal signatures)
+CONTEXT_POS = {"normalize": 0, "quantize": 2, "to_integral_value": 1, "to_integral": 1, "to_integral_exact": 1, "fma": 2, "sqrt": 0, "scaleb": 1, "shift": 1, "rotate": 1, "exp": 0, "ln": 0, "log10": 0, "logb": 0, "next_minus": 0, "next_plus": 0, "next_toward": 1, "remainder_near": 1, "max": 1, "min": 1, "max_mag": 1, "min_mag": 1}
+
+
+def _has_context(call):
+    if any(k.arg == "context" for k in call.keywords):
+        return True
+    pos = CONTEXT_POS.get(call.func.attr)
+    return pos is not None and len(call.args) > pos and not any(isinstance(x, ast.Starred) for x in call.args)
 
 
 def run(ctx):
@@ -84,20 +93,33 @@ def run(ctx):
 
     wd = p.func("_write_py:write_data")
     D, S = wd.pos_params[1], wd.pos_params[2]
-    prep = f"LOGICAL_WRITERS.get(extract_logical_type({S}))"
+
+    def preps(fc, S_):
+        """the lookups of a prepare function that are known to have succeeded on this path (whatever spelling the key
+        has, as long as it is computed from the schema: which key is right is C16.R1's business)"""
+        out = []
+        for x in fc:
+            if x.startswith("LOGICAL_WRITERS.get(") and x.endswith(")") and f"not {x}" not in fc and re.search(r"\b" + re.escape(S_) + r"\b", x):
+                try:
+                    c = ast.parse(x, mode="eval").body
+                except SyntaxError:
+                    continue
+                if isinstance(c, ast.Call) and norm(c.func) == "LOGICAL_WRITERS.get":
+                    out.append(x)
+        return out
+
     sums = [(t, fc) for (t, fc) in tsums(wd) if t.startswith("WRITERS.get(")]
-    with_prep = [(t, fc) for (t, fc) in sums if prep in fc and f"not {prep}" not in fc]
-    ok = bool(with_prep) and all((parts(t) or ("", ["", ""], {}))[1][1:2] == [f"{prep}({D}, {S})"] for (t, fc) in with_prep) and all((parts(t) or ("", ["", ""], {}))[1][1:2] == [D] for (t, fc) in sums if (t, fc) not in with_prep)
+    with_prep = [(t, fc) for (t, fc) in sums if preps(fc, S)]
+    ok = bool(with_prep) and all((parts(t) or ("", ["", ""], {}))[1][1:2] in [[f"{pr}({D}, {S})"] for pr in preps(fc, S)] for (t, fc) in with_prep) and all((parts(t) or ("", ["", ""], {}))[1][1:2] == [D] for (t, fc) in sums if (t, fc) not in with_prep)
     if not sums:
         ctx.unrecognised("C16.R2", "write_data", wd.where(), "no return of a WRITERS table call found")
     else:
         ctx.check("C16.R2", "write_data: datum = prepare(datum, schema) precedes the table writer, which receives the prepared datum", ok, wd.where(), f"write_data: table writer called as {sorted({t[:110] for (t, fc) in sums})}", "the table writer would encode the unconverted Python value")
     vf = p.func("_validation_py:_validate")
     D, S = vf.pos_params[0], vf.pos_params[1]
-    prep = f"LOGICAL_WRITERS.get(extract_logical_type({S}))"
     sums = [(t, fc) for (t, fc) in tsums(vf) if t.startswith("VALIDATORS.get(")]
-    with_prep = [(t, fc) for (t, fc) in sums if prep in fc and f"not {prep}" not in fc]
-    ok = bool(with_prep) and all((parts(t) or ("", [""], {}))[1][:1] in ([f"{prep}({D}, {S})"], [f"{prep}(None, {S})"]) for (t, fc) in with_prep)
+    with_prep = [(t, fc) for (t, fc) in sums if preps(fc, S)]
+    ok = bool(with_prep) and all((parts(t) or ("", [""], {}))[1][:1] in [[f"{pr}({d_}, {S})"] for pr in preps(fc, S) for d_ in (D, "None")] for (t, fc) in with_prep)
     if not sums:
         ctx.unrecognised("C16.R2", "_validate", vf.where(), "no return of a VALIDATORS table call found")
     else:
@@ -215,7 +237,7 @@ def run(ctx):
         if not name.startswith("prepare_"):
             continue
         for n in walk_local(f.node):
-            if isinstance(n, ast.Call) and isinstance(n.func, ast.Attribute) and n.func.attr in CONTEXT_DEPENDENT and not any(k.arg == "context" for k in n.keywords):
+            if isinstance(n, ast.Call) and isinstance(n.func, ast.Attribute) and n.func.attr in CONTEXT_DEPENDENT and not _has_context(n):
                 bad.append((f, n, f"{n.func.attr}() rounds to the ambient decimal context (28 significant digits by default): a wider decimal is stored as a different number"))
             # arithmetic on the Decimal itself is rounded to the ambient context as well
             if "decimal" in name and isinstance(n, ast.BinOp) and isinstance(n.op, (ast.Mult, ast.Add, ast.Sub, ast.Div, ast.FloorDiv, ast.Mod, ast.Pow)) and any(isinstance(x, ast.Name) and x.id == f.pos_params[0] for x in (n.left, n.right)):
@@ -223,6 +245,20 @@ def run(ctx):
             if "decimal" in name and isinstance(n, ast.Call) and isinstance(n.func, ast.Name) and n.func.id == "round" and n.args and isinstance(n.args[0], ast.Name) and n.args[0].id == f.pos_params[0]:
                 bad.append((f, n, "round() of the Decimal changes its value"))
     ctx.check("C16.R6", "decimal preparers call no context-dependent Decimal method", not bad, bad[0][0].where(bad[0][1]) if bad else lwm.relpath, f"{bad[0][0].qualname}: {norm(bad[0][1])}" if bad else "", bad[0][2] if bad else "")
+    # the readers: a decimal is rebuilt under a context of the schema's precision; a context-dependent step without
+    # that context rounds to the thread's ambient one
+    bad = []
+    n_readers = 0
+    for key in sorted(LR.keys()):
+        if "decimal" not in key:
+            continue
+        for f in LR.funcs(key):
+            n_readers += 1
+            for n in walk_local(f.node):
+                if isinstance(n, ast.Call) and isinstance(n.func, ast.Attribute) and n.func.attr in CONTEXT_DEPENDENT and not _has_context(n):
+                    bad.append((f, n, f"{n.func.attr}() without the context built from the schema's precision rounds to the ambient decimal context (28 significant digits by default): a wider decimal is read back as a different number"))
+    if n_readers:
+        ctx.check("C16.R6", "decimal readers pass their own context to every context-dependent Decimal method", not bad, bad[0][0].where(bad[0][1]) if bad else lwm.relpath, f"{bad[0][0].qualname}: {norm(bad[0][1])}" if bad else "", bad[0][2] if bad else "")
     bad = []
     for name, f in sorted(lwm.functions.items()):
         if not name.startswith("prepare_"):
